@@ -17,6 +17,10 @@ def erFut : FutSt → FutSt
   | .exc _ => .ok
   | x => x
 
+@[simp] theorem erFut_pending : erFut .pending = .pending := rfl
+@[simp] theorem erFut_ok : erFut .ok = .ok := rfl
+@[simp] theorem erFut_cancelled : erFut .cancelled = .cancelled := rfl
+@[simp] theorem erFut_exc (e : Err) : erFut (.exc e) = .ok := rfl
 @[simp] theorem erFut_erFut (f : FutSt) : erFut (erFut f) = erFut f := by cases f <;> rfl
 @[simp] theorem erFut_eq_pending (f : FutSt) : (erFut f == .pending) = (f == .pending) := by cases f <;> rfl
 @[simp] theorem erFut_eq_cancelled (f : FutSt) : (erFut f == .cancelled) = (f == .cancelled) := by cases f <;> rfl
@@ -218,11 +222,11 @@ theorem modTask_er (p : Pool) (t' : Nat) (f : PTask → PTask) (hf : ∀ k, f (e
 
 /-- discharges `∀ k, f (erTask k) = erTask (f k)` for a record update `f` -/
 macro "ertac" : tactic =>
-  `(tactic| (intro k; first | rfl | (cases k; simp only [erTask, PTask.mk.injEq, true_and, and_true]; (try split) <;> simp [erFut])))
+  `(tactic| (intro k; first | rfl | (cases k; simp only [erTask, PTask.mk.injEq, true_and, and_true]; (try split) <;> simp [Function.comp_def])))
 
 /-- case analysis down to leaves that hold by computation -/
 macro "splits" : tactic =>
-  `(tactic| repeat' (first | rfl | (split <;> try simp only [*, ↓reduceIte, if_true, if_false])))
+  `(tactic| repeat' (first | rfl | (split <;> try simp only [*, ↓reduceIte, if_true, if_false, Bool.false_eq_true])))
 
 @[simp] theorem schedTask_er (p : Pool) (t' : Nat) : (er t p).schedTask t' = er t (p.schedTask t') := by
   unfold schedTask; rw [modTask_er _ _ _ (by ertac)]; rfl
@@ -248,7 +252,8 @@ theorem foldl_er {α} (f : Pool → α → Pool) (h : ∀ p a, f (er t p) a = er
 @[simp] theorem releaseMap_er (p : Pool) (m : Nat) : (er t p).releaseMap m = er t (p.releaseMap m) := by
   unfold releaseMap; simp only [er_reqs]; split <;> simp
 
-@[simp] theorem heldB_er (p : Pool) (j : Nat) : (er t p).heldB j = p.heldB j := by
+@[simp] theorem heldB_er (p : Pool) : (er t p).heldB = p.heldB := by
+  funext j
   unfold heldB; simp only [er_tasks_get]
   cases p.tasks[j]? with
   | none => rfl
@@ -266,7 +271,8 @@ def erR (t : Nat) (r : Pool × Res) : Pool × Res := (er t r.1, r.2)
 
 /-! ### asyncio `Task.cancel()` -/
 
-@[simp] theorem wakesOnCancel_er (p : Pool) (j : Nat) : (er t p).wakesOnCancel j = p.wakesOnCancel j := by
+@[simp] theorem wakesOnCancel_er (p : Pool) : (er t p).wakesOnCancel = p.wakesOnCancel := by
+  funext j
   unfold wakesOnCancel; simp only [er_tasks_get]
   cases p.tasks[j]? with
   | none => rfl
@@ -356,15 +362,10 @@ def erR (t : Nat) (r : Pool × Res) : Pool × Res := (er t r.1, r.2)
   rw [foldl_er _ (fun q m => metaCancel_er q m)]
   simp
 
-theorem filter_congr' {α} (l : List α) (f g : α → Bool) (h : ∀ a, f a = g a) : l.filter f = l.filter g := by
-  have : f = g := funext h
-  rw [this]
-
 @[simp] theorem cancelGroupBody_er (p : Pool) (g ids order) :
     (er t p).cancelGroupBody g ids order = (p.cancelGroupBody g ids order).map (er t) := by
   unfold cancelGroupBody
-  simp only [cancelGroupMetas_er, er_running]
-  rw [filter_congr' _ (er t (p.cancelGroupMetas g)).wakesOnCancel (p.cancelGroupMetas g).wakesOnCancel (fun a => wakesOnCancel_er _ a)]
+  simp only [cancelGroupMetas_er, er_running, wakesOnCancel_er]
   split
   · rfl
   · rw [foldl_er _ (fun q j => cancelTask_er q j)]; rfl
@@ -406,8 +407,6 @@ theorem match_map_er (o : Option Pool) (p : Pool) (r1 r2 : Res) :
   · rfl
   · rfl
   · split <;> rfl
-
-theorem erEv_hook (r : Res) : erEv t (.hook r) = .hook r := rfl
 
 @[simp] theorem runHooks_er (p : Pool) (ctx : Nat) (hs : List HookOp) : (er t p).runHooks ctx hs = er t (p.runHooks ctx hs) := by
   unfold runHooks
@@ -615,6 +614,138 @@ theorem gatherStart_er (p : Pool) (cs : List Child) (owner n : Nat) (hc : Coll p
   exact ⟨(gatherScan_er _ _ _ q h0).1, rfl, (gatherScan_er (t := t) _ _ _ q h0).2⟩
 
 @[simp] theorem gatherOuter_er (p : Pool) (g : Nat) : (er t p).gatherOuter g = p.gatherOuter g := rfl
+
+/-! ### flush / gather_and_close / until_closed: the collecting calls -/
+
+theorem gatherStart_er' (p p0 : Pool) (cs : List Child) (owner n : Nat) (hc : Coll p0) (e : p.gathers = p0.gathers) :
+    ((er t p).gatherStart cs true owner n).1 = er t (p.gatherStart cs true owner n).1 ∧
+    ((er t p).gatherStart cs true owner n).2 = (p.gatherStart cs true owner n).2 ∧
+    Coll (p.gatherStart cs true owner n).1 := gatherStart_er p cs owner n (hc.of_gathers e)
+
+@[simp] theorem finishApi_er (p : Pool) (a : Nat) (o : Outcome) : (er t p).finishApi a o = er t (p.finishApi a o) := rfl
+
+theorem flushAfter2_er (p : Pool) (a : Nat) (o : Outcome) : (er t p).flushAfter2 a o = er t (p.flushAfter2 a o) := by
+  unfold flushAfter2; split <;> simp
+
+theorem flushAfter2_gathers (p : Pool) (a : Nat) (o : Outcome) : (p.flushAfter2 a o).gathers = p.gathers := by
+  unfold flushAfter2; split <;> rfl
+
+theorem flushAfter1_er (p : Pool) (a : Nat) (o : Outcome) (hc : Coll p) :
+    (er t p).flushAfter1 a true o = er t (p.flushAfter1 a true o) ∧ Coll (p.flushAfter1 a true o) := by
+  unfold flushAfter1
+  split
+  · exact ⟨rfl, hc⟩
+  · simp
+    rw [(gatherStart_er' _ p _ a 0 hc (by rfl)).1, (gatherStart_er' _ p _ a 0 hc (by rfl)).2.1]
+    simp only [gatherOuter_er]
+    constructor
+    · split
+      · exact flushAfter2_er _ _ _
+      · rfl
+    · split
+      · exact Coll.of_gathers (gatherStart_er' (t := t) _ p _ a 0 hc (by rfl)).2.2 (flushAfter2_gathers _ _ _)
+      · exact Coll.of_gathers (gatherStart_er' (t := t) _ p _ a 0 hc (by rfl)).2.2 rfl
+
+theorem flushStage1_er (p : Pool) (a : Nat) (hc : Coll p) :
+    (er t p).flushStage1 a true = er t (p.flushStage1 a true) ∧ Coll (p.flushStage1 a true) := by
+  unfold flushStage1
+  simp
+  rw [(gatherStart_er' _ p _ a _ hc (by rfl)).1, (gatherStart_er' _ p _ a _ hc (by rfl)).2.1]
+  simp only [gatherOuter_er]
+  have hq : ∀ (X : Pool) cs n, X.gathers = p.gathers → Coll (X.gatherStart cs true a n).1 :=
+    fun X cs n e => (gatherStart_er' (t := t) X p cs a n hc e).2.2
+  have hq2 : ∀ (X : Pool) cs n (f : Api → Api), X.gathers = p.gathers → Coll ((X.gatherStart cs true a n).1.modApi a f) :=
+    fun X cs n f e => (hq X cs n e).of_gathers rfl
+  split
+  · exact flushAfter1_er _ _ _ (hq _ _ _ rfl)
+  · exact ⟨rfl, hq2 _ _ _ _ rfl⟩
+
+theorem foldl_schedApi_gathers (ws : List Nat) (p : Pool) : (ws.foldl (fun p w => p.schedApi w) p).gathers = p.gathers := by
+  induction ws generalizing p with
+  | nil => rfl
+  | cons w ws ih => simp only [List.foldl_cons]; rw [ih]; rfl
+
+theorem gacAfter2_er (p : Pool) (a : Nat) (o : Outcome) : (er t p).gacAfter2 a o = er t (p.gacAfter2 a o) := by
+  unfold gacAfter2; split
+  · simp [foldl_er (fun p w => p.schedApi w) (fun _ _ => rfl)]
+  · rfl
+
+theorem gacAfter2_gathers (p : Pool) (a : Nat) (o : Outcome) : (p.gacAfter2 a o).gathers = p.gathers := by
+  unfold gacAfter2; split
+  · simp only [finishApi, modApi]; rw [foldl_schedApi_gathers]
+  · rfl
+
+
+theorem gacAfter1_er (p : Pool) (a g : Nat) (hc : Coll p) :
+    (er t p).gacAfter1 a true g = er t (p.gacAfter1 a true g) ∧ Coll (p.gacAfter1 a true g) := by
+  unfold gacAfter1
+  simp
+  rw [(gatherStart_er' _ p _ a _ hc (by rfl)).1, (gatherStart_er' _ p _ a _ hc (by rfl)).2.1]
+  simp only [gatherOuter_er]
+  have hq : ∀ (X : Pool) cs n, X.gathers = p.gathers → Coll (X.gatherStart cs true a n).1 :=
+    fun X cs n e => (gatherStart_er' (t := t) X p cs a n hc e).2.2
+  have hq2 : ∀ (X : Pool) cs n (f : Api → Api), X.gathers = p.gathers → Coll ((X.gatherStart cs true a n).1.modApi a f) :=
+    fun X cs n f e => (hq X cs n e).of_gathers rfl
+  have hq3 : ∀ (X : Pool) cs n o, X.gathers = p.gathers → Coll ((X.gatherStart cs true a n).1.gacAfter2 a o) :=
+    fun X cs n o e => (hq X cs n e).of_gathers (gacAfter2_gathers _ _ _)
+  split
+  · exact ⟨gacAfter2_er _ _ _, hq3 _ _ _ _ rfl⟩
+  · exact ⟨rfl, hq2 _ _ _ _ rfl⟩
+
+theorem gacStage1_er (p : Pool) (a : Nat) (hc : Coll p) :
+    (er t p).gacStage1 a true = er t (p.gacStage1 a true) ∧ Coll (p.gacStage1 a true) := by
+  unfold gacStage1
+  simp
+  rw [(gatherStart_er' _ p _ a _ hc (by rfl)).1, (gatherStart_er' _ p _ a _ hc (by rfl)).2.1]
+  simp only [gatherOuter_er]
+  have hq : ∀ (X : Pool) cs n, X.gathers = p.gathers → Coll (X.gatherStart cs true a n).1 :=
+    fun X cs n e => (gatherStart_er' (t := t) X p cs a n hc e).2.2
+  have hq2 : ∀ (X : Pool) cs n (f : Api → Api), X.gathers = p.gathers → Coll ((X.gatherStart cs true a n).1.modApi a f) :=
+    fun X cs n f e => (hq X cs n e).of_gathers rfl
+  split
+  · exact gacAfter1_er _ _ _ (hq _ _ _ rfl)
+  · exact ⟨rfl, hq2 _ _ _ _ rfl⟩
+
+theorem untilClosedStart_er (p : Pool) (a : Nat) : (er t p).untilClosedStart a = er t (p.untilClosedStart a) := by
+  unfold untilClosedStart; simp; splits
+
+theorem untilClosedStart_gathers (p : Pool) (a : Nat) : (p.untilClosedStart a).gathers = p.gathers := by
+  unfold untilClosedStart; splits
+
+/-- the kind of a background call collects exceptions -/
+def _root_.Taskpool.ApiKind.coll : ApiKind → Bool
+  | .flush re => re
+  | .gac re => re
+  | .untilClosed => true
+
+theorem stepApi_er (p : Pool) (a : Nat) (hc : Coll p) (ha : ∀ A, p.apis[a]? = some A → A.kind.coll = true) :
+    (er t p).stepApi a = er t (p.stepApi a) ∧ Coll (p.stepApi a) := by
+  unfold stepApi
+  simp only [er_apis]
+  cases hA : p.apis[a]? with
+  | none => exact ⟨rfl, hc⟩
+  | some A =>
+    have hk := ha A hA
+    obtain ⟨kind, frame, sched, oc, sE, sC⟩ := A
+    simp only at hk ⊢
+    split
+    · exact ⟨rfl, hc⟩
+    · simp only [modApi_er, gatherOuter_er]
+      have h1 : Coll (p.modApi a fun x => { x with sched := false }) := hc.of_gathers rfl
+      cases frame <;> cases kind <;> simp only [ApiKind.coll] at hk <;> (try subst hk) <;> simp only [] <;>
+        first
+        | exact ⟨rfl, h1⟩
+        | exact ⟨trivial, h1⟩
+        | exact flushStage1_er _ _ h1
+        | exact gacStage1_er _ _ h1
+        | exact ⟨untilClosedStart_er _ _, h1.of_gathers (untilClosedStart_gathers _ _)⟩
+        | (split <;> first
+            | exact ⟨rfl, h1⟩
+            | exact ⟨trivial, h1⟩
+            | exact flushAfter1_er _ _ _ h1
+            | exact gacAfter1_er _ _ _ h1
+            | exact ⟨flushAfter2_er _ _ _, h1.of_gathers (flushAfter2_gathers _ _ _)⟩
+            | exact ⟨gacAfter2_er _ _ _, h1.of_gathers (gacAfter2_gathers _ _ _)⟩)
 
 end Pool
 end Taskpool
